@@ -54,8 +54,18 @@ Definition show_rem (s : side) (input r : list Z) : string :=
 Definition show_parser (s : side) (input : list Z) (p : parser) : list (string * string) :=
   [("rem", show_rem s input (p_rem p)); ("off", show_Z (p_off p)); ("dir", show_dir (p_dir p))].
 
-Definition show_outcome (s : side) (input : list Z) (o : outcome) : string :=
-  show_fields (("br", show_opt show_nat (fst o)) :: show_parser s input (snd o)).
+(** state X: the parser after a split that found no delimiter (remainder empty, offset past the
+    input, split protocol exhausted).  The macro never touches yielded_last_split
+    (C18 theorems: the forms are chains of strip / find / trim steps of Model.Parser, none of which
+    sets it), so the flag shown after the macro is the flag before it. *)
+Definition is_x (dir : val) : bool := String.eqb (as_atom dir) "X".
+Definition init_p (inp : list Z) (off : Z) (dir : val) : parser :=
+  if is_x dir then mkP [] (off + zlen inp) (dir_of dir) else mkP inp off (dir_of dir).
+Definition with_flag (dir : val) (l : list (string * string)) : list (string * string) :=
+  (l ++ [("fl", show_bool (is_x dir))])%list.
+
+Definition show_outcome (dir : val) (s : side) (input : list Z) (o : outcome) : string :=
+  show_fields (with_flag dir (("br", show_opt show_nat (fst o)) :: show_parser s input (snd o))).
 
 Definition run_match (form : side -> list (list (list Z)) -> parser -> outcome) (s : side)
   (brs input off dir : val) : option string :=
@@ -63,7 +73,7 @@ Definition run_match (form : side -> list (list (list Z)) -> parser -> outcome) 
   | None => Some "NOCOMPILE"
   | Some b =>
       let inp := as_bytes input in
-      Some (show_outcome s inp (form s b (mkP inp (as_Z off) (dir_of dir))))
+      Some (show_outcome dir s inp (form s b (init_p inp (as_Z off) dir)))
   end.
 
 Definition run_trim (s : side) (alts input off dir : val) : option string :=
@@ -71,17 +81,17 @@ Definition run_trim (s : side) (alts input off dir : val) : option string :=
   | None => Some "NOCOMPILE"
   | Some a =>
       let inp := as_bytes input in
-      match trim_macro s a (mkP inp (as_Z off) (dir_of dir)) with
-      | Some p => Some (show_fields (show_parser s inp p))
+      match trim_macro s a (init_p inp (as_Z off) dir) with
+      | Some p => Some (show_fields (with_flag dir (show_parser s inp p)))
       | None => Some "OUT-OF-FUEL"
       end
   end.
 
 Definition run_skip (back : bool) (input n off dir : val) : string :=
   let inp := as_bytes input in
-  let p := mkP inp (as_Z off) (dir_of dir) in
-  if back then show_fields (show_parser AtEnd inp (skip_back_m p (as_Z n)))
-  else show_fields (show_parser AtStart inp (skip_m p (as_Z n))).
+  let p := init_p inp (as_Z off) dir in
+  if back then show_fields (with_flag dir (show_parser AtEnd inp (skip_back_m p (as_Z n))))
+  else show_fields (with_flag dir (show_parser AtStart inp (skip_m p (as_Z n)))).
 
 Definition c18_run (fam : string) (args : list val) : option string :=
   match args with
